@@ -96,3 +96,29 @@ pub fn stop() -> HeapStats {
     ON.with(|o| o.set(false));
     snapshot()
 }
+
+/// Pause attribution on this thread (harness-owned allocations such as the
+/// wire tap must not be charged to the library). Returns the previous state.
+pub fn set_on(on: bool) -> bool {
+    ON.with(|o| o.replace(on))
+}
+
+pub struct Paused(bool);
+
+impl Paused {
+    pub fn new() -> Paused {
+        Paused(set_on(false))
+    }
+}
+
+impl Default for Paused {
+    fn default() -> Self {
+        Self::new()
+    }
+}
+
+impl Drop for Paused {
+    fn drop(&mut self) {
+        set_on(self.0);
+    }
+}
